@@ -17,7 +17,8 @@ OBS = ['pos', 'linesFed', 'authed', 'batch', 'rbatch', 'nfd']      # verdict var
 OBS_FD = OBS + ['fdq']
 INVS_C04 = ['Boundary', 'InOrder', 'PartitionFree', 'Quiescent', 'PendingLen', 'AuthOnce', 'LineMode']
 INVS_C20 = ['Attribution', 'QueueTail']
-FD0 = 1000       # descriptor number d travels as the integer FD0 + d
+FD0 = -1         # descriptor number d (1, 2, ...) travels as the integer FD0 + d: the first one received is number 0, as in a
+                 # process that closed its standard input
 
 
 @implementer(txdbus.protocol.IDBusAuthenticator)
@@ -103,7 +104,7 @@ class _Fac:
 _SER = [5000]
 
 
-def mk_msg(kind, i, endian='l', fds=0, hperm=None, crlf=False, serial=None, pad=0):
+def mk_msg(kind, i, endian='l', fds=0, hperm=None, crlf=False, serial=None, pad=0, wrap=None):
     """A concrete message number i, built with the independent reference encoder (either byte
     order).  Returns (raw bytes, nfds, hidx)."""
     text = ('x%d' % i) + ('\r\nBEGIN\r\nOK 12\r\n' if crlf else '') + 'p' * pad
@@ -119,7 +120,15 @@ def mk_msg(kind, i, endian='l', fds=0, hperm=None, crlf=False, serial=None, pad=
         'sig': (4, [('path', '/p%d' % i), ('interface', 'org.ex.I'), ('member', 'S%d' % i)]),
         'empty': (4, [('path', '/p%d' % i), ('interface', 'org.ex.I'), ('member', 'S%d' % i)]),
     }[kind]
-    if fds:
+    if fds and wrap == 'v':
+        # what only a foreign peer sends: the descriptors travel inside variants, no 'h' in the body signature
+        raw = refwire.msg(mtype, serial, fields + [('unix_fds', fds)], 'v' * fds + 's',
+                          [refwire.Variant('h', j) for j in hidx] + [text], le=le)
+    elif fds and wrap == 'none':
+        # descriptors declared and attached but referenced by no argument: still consumed with this message
+        hidx = []
+        raw = refwire.msg(mtype, serial, fields + [('unix_fds', fds)], 's', [text], le=le)
+    elif fds:
         raw = refwire.msg(mtype, serial, fields + [('unix_fds', fds)], 'h' * fds + 's', hidx + [text], le=le)
     elif kind == 'empty':
         raw = refwire.msg(mtype, serial, fields, le=le)
@@ -267,7 +276,8 @@ class FramingDriver:
 
                 def walk(t, x):
                     # descriptors in signature order, wherever they sit (struct members, array elements, dict values)
-                    if t == 'h':
+                    if t == 'h' or (t == 'v' and isinstance(x, int) and not isinstance(x, bool)):
+                        # (the variants of these instances hold nothing but descriptors)
                         vals.append((x - FD0) if isinstance(x, int) and not isinstance(x, bool) else 0)
                     elif t[0] == '(':
                         for tt, xx in zip(refwire.split(t[1:-1]), x):
